@@ -1844,4 +1844,208 @@ theorem endBlock_inv (s s' : State) (hi : Inv s) (h : streamerEndBlock s = .ok s
   obtain ⟨_, c1, _⟩ := strDistribute_core s _ _ _ _ s' hi.ginv hi.struct hin hst h'
   exact ⟨(strDistribute_spec _ _ _ _ _ _ hi.ginv h').1, (strDistribute_streams s _ _ _ _ s' hi.ginv hi.struct hin h').1, a, b, by rw [c1]; exact hi.len⟩
 
+
+/-- the stream `CreateStream` stores -/
+def newStream (s : State) (c : Coins) (rs : List Rec) (start' e n : Nat) : Stream :=
+  ⟨s.streams.length + 1, rs, totalWeightOf rs, c, [], start', e, n, 0, Coins.quo c n, false⟩
+
+/-- `createStream` either leaves the state alone or appends a fresh upcoming stream with validated records -/
+theorem createStream_shape (s : State) (c : Coins) (rs : List Rec) (st e n : Nat) :
+    (createStream s c rs st e n).2 = s ∨
+    (validateRecs s rs 0 [] = true ∧ ∃ u start',
+      (createStream s c rs st e n).2 = { s with streams := s.streams ++ [newStream s c rs start' e n], upcoming := u }) := by
+  unfold createStream
+  by_cases h1 : (c.isZero || decide (n = 0)) = true
+  · rw [if_pos h1]; exact Or.inl rfl
+  · rw [if_neg h1]
+    by_cases h2 : (!validateRecs s rs 0 []) = true
+    · rw [if_pos h2]; exact Or.inl rfl
+    · rw [if_neg h2]
+      have hv : validateRecs s rs 0 [] = true := by simpa using h2
+      by_cases h3 : totalWeightOf rs = 0
+      · rw [if_pos h3]; exact Or.inl rfl
+      · rw [if_neg h3]
+        cases hm : moduleToDistribute s with
+        | none => exact Or.inl rfl
+        | some alloc =>
+          simp only
+          cases hf : Coins.sub? (s.bank.get streamerAddr) alloc with
+          | none => exact Or.inl rfl
+          | some free =>
+            simp only
+            by_cases h4 : (!Coins.le c free) = true
+            · rw [if_pos h4]; exact Or.inl rfl
+            · rw [if_neg h4]
+              by_cases h5 : e > 2
+              · rw [if_pos h5]; exact Or.inl rfl
+              · rw [if_neg h5]
+                cases hadd : Refs.add s.upcoming (if st < s.now then s.now else st) (s.streams.length + 1) with
+                | none => exact Or.inl rfl
+                | some u => exact Or.inr ⟨hv, u, _, rfl⟩
+
+theorem createStream_inv (s : State) (hi : Inv s) (c : Coins) (rs : List Rec) (st e n : Nat)
+    (hlen : (createStream s c rs st e n).2.streams.length < maxU64) : Inv (createStream s c rs st e n).2 := by
+  have hsame := createStream_same s c rs st e n
+  have hstruct := (createStream_sstep s hi.struct c rs st e n).struct
+  rcases createStream_shape s c rs st e n with h | ⟨hv, u, start', h⟩
+  · rw [h]; exact hi
+  · refine ⟨hsame.ginv hi.ginv, hstruct, ?_, ?_, hlen⟩
+    · rw [h]
+      intro st' hm i
+      simp only at hm
+      unfold SBst ptrOfEpoch
+      simp only
+      rcases List.mem_append.1 hm with h1 | h1
+      · have := hi.sb st' h1 i
+        unfold SBst ptrOfEpoch at this; exact this
+      · simp only [List.mem_singleton] at h1
+        have hna : st'.id ∉ s.active.ids := by
+          intro hx
+          have := (hi.struct.valid _ (List.mem_append_left _ hx)).2
+          rw [h1] at this
+          have hid : (newStream s c rs start' e n).id = s.streams.length + 1 := rfl
+          omega
+        rw [if_neg hna, h1]
+        show amt ([] : Coins) i ≤ amt c i
+        simp
+    · rw [h]
+      constructor
+      · intro st' hm
+        rcases List.mem_append.1 hm with h1 | h1
+        · exact hi.stat.tw st' h1
+        · simp only [List.mem_singleton] at h1; rw [h1]; rfl
+      · intro st' hm
+        rcases List.mem_append.1 hm with h1 | h1
+        · exact hi.stat.recs st' h1
+        · simp only [List.mem_singleton] at h1; rw [h1]
+          show StrictInc (rs.map (·.gauge))
+          exact strictInc_of_pairwise _ (validateRecs_strict s rs 0 [] hv).2
+
+theorem moveToFinished_inv (s : State) (hi : Inv s) (b : Bool) (st : Stream) (s' : State) (h : moveToFinished s b st = some s') : Inv s' := by
+  have hsame := moveToFinished_same s b st s' h
+  have hstruct := (moveToFinished_sstep s hi.struct b st s' h).struct
+  have hfacts : s'.streams = s.streams ∧ s'.ptrs = s.ptrs ∧ ∀ x, x ∈ s'.active.ids → x ∈ s.active.ids := by
+    unfold moveToFinished at h
+    cases b with
+    | true =>
+      simp only [if_true] at h
+      cases hd : Refs.del s.active st.start st.id with
+      | none => simp [hd] at h
+      | some r =>
+        simp only [hd] at h
+        cases hf : Refs.add s.finished st.start st.id with
+        | none => simp [hf] at h
+        | some f =>
+          simp only [hf, Option.some.injEq] at h
+          subst h
+          obtain ⟨n1, _, _⟩ := List.nodup_append.1 hi.struct.nodup
+          obtain ⟨_, _, d3⟩ := Refs.del_spec (fun _ => 0) s.active _ _ r hd
+          exact ⟨rfl, rfl, fun x hx => (((d3 n1).2 x).1 hx).1⟩
+    | false =>
+      simp only [Bool.false_eq_true, if_false] at h
+      cases hd : Refs.del s.upcoming st.start st.id with
+      | none => simp [hd] at h
+      | some r =>
+        simp only [hd] at h
+        cases hf : Refs.add s.finished st.start st.id with
+        | none => simp [hf] at h
+        | some f =>
+          simp only [hf, Option.some.injEq] at h
+          subst h
+          exact ⟨rfl, rfl, fun x hx => hx⟩
+  obtain ⟨f1, f2, f3⟩ := hfacts
+  refine ⟨hsame.ginv hi.ginv, hstruct, ?_, SStat_congr f1 hi.stat, by rw [f1]; exact hi.len⟩
+  intro st' hm i
+  rw [f1] at hm
+  have := hi.sb st' hm i
+  unfold SBst ptrOfEpoch at *
+  rw [f2]
+  by_cases ha' : st'.id ∈ s'.active.ids
+  · rw [if_pos ha']; rw [if_pos (f3 _ ha')] at this; exact this
+  · rw [if_neg ha']
+    by_cases ha : st'.id ∈ s.active.ids
+    · rw [if_pos ha] at this; omega
+    · rw [if_neg ha] at this; exact this
+
+theorem terminateStream_inv (s : State) (hi : Inv s) (id : Nat) : Inv (terminateStream s id).2 := by
+  unfold terminateStream
+  repeat' (first | split | dsimp only)
+  all_goals first | exact hi | (exact moveToFinished_inv _ hi _ _ _ (by assumption))
+
+/-- re-targeting a stream's records (a governance proposal outside the property's quantifier) is the one
+    operation that can break the stream bound: it may add pending shares in the middle of an epoch -/
+def Op.noRetarget : Op → Prop
+  | .replaceDistr _ _ => False
+  | _ => True
+
+instance (op : Op) : Decidable op.noRetarget := by
+  cases op <;> (unfold Op.noRetarget; infer_instance)
+
+theorem step_inv (s : State) (op : Op) (hi : Inv s) (hw : op.wf) (hw2 : op.wfS) (hr : op.noRetarget)
+    (hlen : (step s op).2.streams.length < maxU64) : Inv (step s op).2 := by
+  have hg := step_ginv s op hi.ginv hw
+  have hst := (step_sstep s op hi.ginv hi.struct hw hw2).struct
+  unfold step at hlen hg hst ⊢
+  split
+  · exact hi
+  · rename_i hh
+    rw [if_neg hh] at hlen hg hst
+    cases op with
+    | begin dt => exact beginBlock_inv s dt hi
+    | end_ =>
+      simp only at hlen hg hst ⊢
+      cases h : streamerEndBlock s with
+      | ok s' => exact endBlock_inv s s' hi h
+      | error e => exact Inv_frame (s' := { s with halted := true }) hi rfl rfl rfl rfl (Same.ginv (s := s) ⟨rfl, rfl, rfl, rfl⟩ hi.ginv)
+    | setMaxIter n => exact Inv_frame (s' := { s with maxIter := n }) hi rfl rfl rfl rfl hg
+    | fund a c => exact Inv_frame (s' := { s with bank := s.bank.credit a c }) hi rfl rfl rfl rfl hg
+    | locks ls => exact Inv_frame (s' := { s with locks := ls }) hi rfl rfl rfl rfl hg
+    | rollapp r o l => exact Inv_frame (s' := { s with rollapps := setRollapp s.rollapps r ⟨true, o, l⟩ }) hi rfl rfl rfl rfl hg
+    | rollappGauge r =>
+      simp only at hg ⊢
+      have : (createRollappGauge s r).2.streams = s.streams ∧ (createRollappGauge s r).2.active = s.active ∧
+          (createRollappGauge s r).2.upcoming = s.upcoming ∧ (createRollappGauge s r).2.ptrs = s.ptrs := by
+        unfold createRollappGauge; repeat' (first | split | dsimp only)
+        all_goals exact ⟨rfl, rfl, rfl, rfl⟩
+      exact Inv_frame hi this.1 this.2.1 this.2.2.1 this.2.2.2 hg
+    | createGauge o p d du hsup c st n =>
+      simp only at hg ⊢
+      have : (createGauge s o p d du hsup c st n).2.streams = s.streams ∧ (createGauge s o p d du hsup c st n).2.active = s.active ∧
+          (createGauge s o p d du hsup c st n).2.upcoming = s.upcoming ∧ (createGauge s o p d du hsup c st n).2.ptrs = s.ptrs := by
+        unfold createGauge; repeat' (first | split | dsimp only)
+        all_goals exact ⟨rfl, rfl, rfl, rfl⟩
+      exact Inv_frame hi this.1 this.2.1 this.2.2.1 this.2.2.2 hg
+    | addToGauge o gid c =>
+      simp only at hg ⊢
+      have : (addToGauge s o gid c).2.streams = s.streams ∧ (addToGauge s o gid c).2.active = s.active ∧
+          (addToGauge s o gid c).2.upcoming = s.upcoming ∧ (addToGauge s o gid c).2.ptrs = s.ptrs := by
+        unfold addToGauge; repeat' (first | split | dsimp only)
+        all_goals exact ⟨rfl, rfl, rfl, rfl⟩
+      exact Inv_frame hi this.1 this.2.1 this.2.2.1 this.2.2.2 hg
+    | createStream c rs st e n => exact createStream_inv s hi c rs st e n hlen
+    | terminateStream id => exact terminateStream_inv s hi id
+    | replaceDistr id rs => exact absurd hr (by unfold Op.noRetarget; exact fun h => h)
+
+theorem init_inv (now mi : Nat) : Inv (init now mi) :=
+  ⟨init_ginv now mi, init_sstruct now mi, by intro st hm; simp [init] at hm, ⟨by intro st hm; simp [init] at hm, by intro st hm; simp [init] at hm⟩,
+   by simp [init, maxU64]⟩
+
+/-- **the full invariant holds along every history** without re-targeting, as long as fewer than 2^64-1
+    streams have been created -/
+theorem run_inv : ∀ (ops : List Op) (s : State), Inv s → (∀ op ∈ ops, op.wf ∧ op.wfS ∧ op.noRetarget) →
+    (run s ops).streams.length < maxU64 → Inv (run s ops) := by
+  intro ops
+  induction ops with
+  | nil => intro s h _ _; exact h
+  | cons op rest ih =>
+    intro s hi hw hlen
+    unfold run at hlen ⊢
+    obtain ⟨w1, w2, w3⟩ := hw op List.mem_cons_self
+    have hw' : ∀ o ∈ rest, o.wf ∧ o.wfS ∧ o.noRetarget := fun o ho => hw o (List.mem_cons_of_mem _ ho)
+    have hst := step_sstep s op hi.ginv hi.struct w1 w2
+    have hg1 := step_ginv s op hi.ginv w1
+    have hm := (run_struct_mono rest _ hg1 hst.struct (fun o ho => ⟨(hw' o ho).1, (hw' o ho).2.1⟩)).2
+    have hl1 : (step s op).2.streams.length < maxU64 := Nat.lt_of_le_of_lt hm.1 hlen
+    exact ih _ (step_inv s op hi w1 w2 w3 hl1) hw' hlen
+
 end DymVerif.Incent
